@@ -5,8 +5,8 @@ import warnings
 
 from .common import Oracle, Suite, errname, merge
 
-GEN_UNITS = ["Handlers", "PyUnicode", "UsingSettings", "UsingBool", "Rng", "PyCase"]
-LEAN_TARGETS = ["PasslibVerif.Props.C09", "PasslibVerif.Props.C09Salt"]
+GEN_UNITS = ["Handlers", "PyUnicode", "UsingSettings", "UsingBool", "Rng", "PyCase", "Decisions"]
+LEAN_TARGETS = ["PasslibVerif.Props.C09", "PasslibVerif.Props.C09Salt", "PasslibVerif.Props.C09Gen"]
 ASSUMPTIONS = [
     "float vary_rounds: the integer `int(default_rounds * vary_rounds)` is taken from the running interpreter (atom); log2-cost hashers with float vary are compared on the real code only",
     "type()-based subclass creation and attribute lookup follow CPython's MRO semantics (modelled as a class table)",
